@@ -75,7 +75,7 @@ def gen_family(rng, mode="normal", allow_sign=False, allow_stub=False, allow_ove
     tags = []
     comps = [(gi, ci) for gi, g in enumerate(base) for ci in range(len(g["components"]))]
     # components whose 2x2 differs between masters
-    if comps and rng.random() < 0.35:
+    if comps and rng.random() < 0.45:
         gi, ci = rng.choice(comps)
         cur = tuple(base[gi]["components"][ci][1][:4])
         neg = cur[0] * cur[3] - cur[1] * cur[2] < 0
@@ -94,7 +94,8 @@ def gen_family(rng, mode="normal", allow_sign=False, allow_stub=False, allow_ove
                 if v != cur[i] and abs(v) <= 1.25 and keeps_sign(m1):
                     one.append(tuple(m1))
         if one and rng.random() < 0.5:
-            same = one
+            i = rng.choice(sorted({j for m1 in one for j in range(4) if m1[j] != cur[j]}))     # entry first, then value
+            same = [m1 for m1 in one if m1[i] != cur[i]]
             tags.append("2x2differs:one-entry")
         flip = allow_sign and rng.random() < 0.5
         if flip:
@@ -173,8 +174,20 @@ def gen_family(rng, mode="normal", allow_sign=False, allow_stub=False, allow_ove
             host = rng.randrange(nfull)
             pool = [g for g in base if g["name"] != ".notdef" or rng.random() < 0.1]
             sub = [g for g in pool if rng.random() < 0.45] or [rng.choice(pool)]
+            # make it likely that the sparse source has a pure composite whose base(s) it lacks (placeholders needed)
+            comps_ = [g for g in base if g["components"] and not g["contours"]]
+            if comps_ and rng.random() < 0.6:
+                g0 = rng.choice(comps_)
+                gone = {c[0] for c in g0["components"]}
+                sub = [g for g in sub if g["name"] not in gone and g["name"] != g0["name"]] + [g0]
             layer = perturb(rng, sub)
-            sources.append({"font": host, "layer": "L%d" % s, "loc": loc, "glyphs": layer})
+            if rng.random() < 0.5:
+                # a sparse source that is its OWN UFO (a <source> without layer=): still not the default source
+                masters.append(layer)
+                sources.append({"font": len(masters) - 1, "layer": None, "loc": loc, "sparse": True})
+                tags.append("sparse-ufo")
+            else:
+                sources.append({"font": host, "layer": "L%d" % s, "loc": loc, "glyphs": layer})
             tags.append("sparse")
         order = list(range(len(sources)))
         if rng.random() < 0.5:
@@ -420,7 +433,7 @@ def run_family(case):
     inp = {"path": "ttf" if ttf else "otf", "ds": ds,
            "locs": [rat(s["loc"]) for s in sources] if ds else [],
            "defaultIdx": [i for i, s in enumerate(sources) if s["loc"] == 0 and s["layer"] is None][0] if ds else 0,
-           "masters": src, "sparse": [s["layer"] is not None for s in sources], "skip": list(case["skip"]),
+           "masters": src, "sparse": [s["layer"] is not None or bool(s.get("sparse")) for s in sources], "skip": list(case["skip"]),
            "flatten": bool(case["flatten"]) and ttf, "convertCubics": bool(case["convertCubics"]) and ttf,
            "reverse": bool(case["reverse"]), "custom": custom, "cu2qu": rec["post"], "cu2quModified": bool(rec.get("modified")),
            "orders": [list(o) for o in orders], "notdefFallback": ds and default_has_notdef, "stubs": [stub_notdef(ttf) for _ in sources]}
